@@ -20,6 +20,7 @@ type fmtErr struct {
 }
 
 func (e *Exec) newError(tag string, msg string, wrapped ...Val) *IfaceV {
+	e.lastErr = tag + ": " + msg
 	return &IfaceV{T: fmtErrorType, V: &NativeV{Kind: "fmtError", Data: &fmtErr{msg: mkStr(msg), wrapped: wrapped, tag: tag}}}
 }
 
@@ -359,10 +360,14 @@ func init() {
 	// rosmar helpers that are cut (formatting of opaque values)
 	stubs[rosmarPath+".encodedCRC32c"] = func(e *Exec, th *Thread, c *CallCtx, a []Val) StubRes {
 		b := a[0].(*BytesV)
-		return ret(e.injUF("crc32c", SStr, toBlob(b.S)))
+		r := e.injUF("crc32c", SStr, toBlob(b.S))
+		e.assume(tEq(tStrLen(r), mkInt(10))) // "0x%08x"
+		return ret(r)
 	}
 	stubs[rosmarPath+".casAsString"] = func(e *Exec, th *Thread, c *CallCtx, a []Val) StubRes {
-		return ret(e.injUF("casStr", SStr, a[0].(*Term)))
+		r := e.injUF("casStr", SStr, a[0].(*Term))
+		e.assume(tEq(tStrLen(r), mkInt(18))) // "0x" + 16 hex digits
+		return ret(r)
 	}
 	stubs["runtime.GOMAXPROCS"] = func(e *Exec, th *Thread, c *CallCtx, a []Val) StubRes { return ret(mkInt(1)) }
 }
